@@ -26,7 +26,15 @@ pub struct EmbeddedTlv {
     pub n: usize,
 }
 
+/// Same, over the text alphabet {00, 02, a, '.', '-'}.
+pub struct EmbeddedText {
+    pub n: usize,
+}
+
+/// `family` 0..=3 embeds in a PROXY header of that family; 4 is LOCAL with the unspecified family.
 pub fn embed(family: u8, section: &[u8], out: &mut Vec<u8>) -> bool {
+    let local = family == 4;
+    let family = if local { 0 } else { family };
     let size = FAMILY_SIZE[family as usize];
     let total = size + section.len();
     if total > 65535 {
@@ -34,8 +42,8 @@ pub fn embed(family: u8, section: &[u8], out: &mut Vec<u8>) -> bool {
     }
     out.clear();
     out.extend_from_slice(&SIG);
-    out.push(0x21);
-    out.push((family << 4) | 1);
+    out.push(if local { 0x20 } else { 0x21 });
+    out.push(if local { 0x00 } else { (family << 4) | 1 });
     out.push((total >> 8) as u8);
     out.push(total as u8);
     out.extend((0..size).map(u2::pattern));
@@ -48,13 +56,13 @@ impl Universe for EmbeddedTlv {
         "UT-byte/embedded".into()
     }
     fn bound(&self) -> Value {
-        json!({"mode": "every string over {00,01,02,04,FF} of length <= n as the TLV section of a header of each family", "n": self.n})
+        json!({"mode": "every string over {00,01,02,04,FF} of length <= n as the payload after the address block of a PROXY header of each family and of a LOCAL/unspecified header", "n": self.n})
     }
     fn units(&self) -> usize {
-        4 * u2::tlv_byte_universe(self.n).units()
+        5 * u2::tlv_byte_universe(self.n).units()
     }
     fn roots(&self) -> u64 {
-        4
+        5
     }
     fn run_unit(&self, u: usize, f: &mut dyn FnMut(&[u8])) {
         let inner = u2::tlv_byte_universe(self.n);
@@ -63,6 +71,32 @@ impl Universe for EmbeddedTlv {
         let mut buf = Vec::with_capacity(300);
         inner.run_unit(u % per, &mut |section: &[u8]| {
             // the unspecified family has no TLV section: its whole payload is the address view
+            if embed(family, section, &mut buf) {
+                f(&buf);
+            }
+        });
+    }
+}
+
+impl Universe for EmbeddedText {
+    fn name(&self) -> String {
+        "UT-byte/text/embedded".into()
+    }
+    fn bound(&self) -> Value {
+        json!({"mode": "every string over {00,02,'a','.','-'} of length <= n as the payload after the address block of a header of each family (and LOCAL/unspec)", "n": self.n})
+    }
+    fn units(&self) -> usize {
+        5 * u2::tlv_text_universe(self.n).units()
+    }
+    fn roots(&self) -> u64 {
+        5
+    }
+    fn run_unit(&self, u: usize, f: &mut dyn FnMut(&[u8])) {
+        let inner = u2::tlv_text_universe(self.n);
+        let per = inner.units();
+        let family = (u / per) as u8;
+        let mut buf = Vec::with_capacity(300);
+        inner.run_unit(u % per, &mut |section: &[u8]| {
             if embed(family, section, &mut buf) {
                 f(&buf);
             }
@@ -88,10 +122,10 @@ impl Universe for EmbeddedStructured {
         json!({"mode": "structured TLV sequences with every truncation point, embedded in a header of each family"})
     }
     fn units(&self) -> usize {
-        4 * 64
+        5 * 64
     }
     fn roots(&self) -> u64 {
-        4
+        5
     }
     fn run_unit(&self, u: usize, f: &mut dyn FnMut(&[u8])) {
         let list = &self.list;
@@ -238,5 +272,6 @@ pub fn judge(input: &[u8], acc: &mut Acc) {
 
 pub fn run(run: &Run) {
     run.explore(&u2::tlv_byte_universe(run.tier.pick(10, 12)));
+    run.explore(&u2::tlv_text_universe(run.tier.pick(8, 10)));
     run.explore(&u2::tlv_structured_universe(run.tier == Tier::Thorough));
 }
